@@ -5,7 +5,7 @@ import re
 from hypothesis import strategies as st
 
 from vp import dyn
-from vp.core import Sub, Reg, Violation
+from vp.core import Sub, Reg, Violation, HarnessError
 
 PROPERTY = "C02"
 RULE = ("random acyclic component graphs (2-10 nodes; plain/component/combiner/condition/rule/datasource/"
@@ -13,7 +13,13 @@ RULE = ("random acyclic component graphs (2-10 nodes; plain/component/combiner/c
         "and the same dependency declared twice) x outcome per node (value/skip/content error/failed "
         "command/timeout/crash) x seeded values x enabled/disabled configuration applied through "
         "dr.set_enabled, insights.apply_configs (exact and prefix names) or apply_default_enabled x "
-        "five ways of handing the graph to the engine; plus an exhaustive enumeration of dependency "
+        "five ways of handing the graph to the engine; the same cases through the public front ends "
+        "(sub-check frontends: insights.run with a component / a component list / the default group, "
+        "insights._run, insights.process_dir, SingleEvaluator.process serial and incremental, "
+        "dr.run_incremental, dr.run_all with and without a pool) x graph shape (full, closure of targets, "
+        "subset, the process-wide default graph) x root (none, plain / insights_commands / sos_commands / "
+        "serialized-archive directory, tar.gz archive) x context argument x thread pool, with components "
+        "switched off in more than half of the cases; plus an exhaustive enumeration of dependency "
         "shapes over <= 3 (quick) / 4 (thorough) upstream components. Oracle: reference evaluator "
         "written from the statement (fires iff enabled and requirements met; one positional argument "
         "per declared dependency in declaration order; exact missing report / rule skip response). "
@@ -23,14 +29,92 @@ ASSUMPTIONS = [
     "component bodies never return None and nothing depends on a rule (the statement does not say "
     "whether None or a rule's skip response counts as a value)",
     "registry points have exactly one implementation here (overriding is C05)",
+    "front ends: the generated components do not depend on the execution context, so which context a "
+    "directory is recognised as does not decide anything (context resolution is C05)",
+]
+EXCLUDED = [
+    "insights._run(parallel=True) without a root (it evaluates the graph and then fails with TypeError in "
+    "os.path.isdir(None) on the unchanged tree; the evaluation itself is the same dr.run_all call that the "
+    "rooted form makes, which is generated)",
+    "values supplied beforehand / a second pass on a broker that holds a SerializedArchiveContext: dr.run "
+    "documents a further rule there (dependencies of what the broker holds are not collected again) which "
+    "the statement does not cover (C01 `archive` models it)",
+    "insights.run(print_summary=True): command-line parsing, config file reading and formatter output",
 ]
 
 
+# ---- the public front ends ---------------------------------------------------------------------------
+#
+# The statement is about "a component", not about dr.run: whichever public entry point evaluates the graph,
+# the same components fire with the same arguments and the same unmet requirements are reported.  The
+# front ends narrow / rebuild the graph and prepare the broker themselves before they hand over to the
+# engine (insights.run builds the graph from a component list or takes the default group; insights._run
+# and insights.process_dir restrict it to the single group, determine the execution context from a
+# directory / unpack an archive, optionally evaluate through a thread pool; SingleEvaluator wraps the
+# evaluation in a formatter whose response lists the rule skips; dr.run_incremental / dr.run_all evaluate
+# the connected parts one by one).  A case of the sub-check `frontends` is an ordinary C02 case (graph x
+# outcomes x seeds x enabled/disabled configuration x earlier evaluation x repetition x second pass)
+# whose driver is {"kind": "front", "api", "graph", "root", "context", "parallel", ...}.
+
+FRONT_APIS = ["insights.run", "insights._run", "insights.process_dir", "SingleEvaluator"]
+FRONT_GRAPHS = ["full", "targets", "single_target", "subset", "default"]
+FRONT_ROOTS = ["none", "plain", "commands", "sos", "serialized", "tar"]
+FRONT_CONTEXTS = [None, "HostArchiveContext", "ExecutionContext"]
+ENGINE_DRIVERS = ["run_incremental", "run_all", "run_all_pool"]
+TMP_PREFIX = "vp-c02-"
+
+
 @st.composite
-def cases(draw, tier="quick"):
+def front_driver(draw, n):
+    api = draw(st.sampled_from(["insights.run", "insights.run", "insights._run", "insights._run",
+                                "insights.process_dir", "insights.process_dir", "SingleEvaluator", "dr"]))
+    if api == "dr":
+        # the engine's own further entry points (not among the drivers of `graphs`)
+        return draw(dyn.driver(n, kinds=ENGINE_DRIVERS))
+    d = {"kind": "front", "api": api, "root": "none", "context": None, "parallel": False}
+    if api == "insights.run":
+        shape = draw(st.sampled_from(["targets", "targets", "single_target", "default"]))
+    elif api == "SingleEvaluator":
+        shape = draw(st.sampled_from(["full", "targets", "subset", "default"]))
+        d["incremental"] = draw(st.booleans())
+        d["parallel"] = d["incremental"] and draw(st.booleans())
+    else:
+        shape = draw(st.sampled_from(["full", "targets", "targets", "subset", "default"]))
+    d["graph"] = shape
+    if shape in ("targets", "single_target"):
+        k = 1 if shape == "single_target" else draw(st.integers(1, min(3, n)))
+        d["targets"] = sorted(draw(st.sets(st.integers(0, n - 1), min_size=k, max_size=k)))
+    if shape == "subset":
+        d["subset"] = sorted(draw(st.sets(st.integers(0, n - 1), min_size=1, max_size=n)))
+    if api != "SingleEvaluator":
+        if api == "insights.process_dir":
+            roots = ["plain", "plain", "commands", "sos", "serialized"]      # takes a directory only
+        else:
+            roots = FRONT_ROOTS + ["none", "plain"]
+        d["root"] = draw(st.sampled_from(roots))
+        d["context"] = draw(st.sampled_from([None, None, None, "HostArchiveContext", "ExecutionContext"]))
+        if api != "insights.run" and d["root"] != "none":
+            # (insights._run(parallel=True) without a root is outside the domain, see EXCLUDED)
+            d["parallel"] = draw(st.sampled_from([False, False, True]))
+    return d
+
+
+@st.composite
+def cases(draw, tier="quick", front=False):
     case = draw(dyn.graphs(max_nodes=12 if tier == "quick" else 14))
     n = len(case["nodes"])
-    case["driver"] = draw(dyn.driver(n))
+    if front:
+        drv = case["driver"] = draw(front_driver(n))
+        if drv["kind"] == "front" and (drv["api"] == "insights.run" or drv["root"] == "serialized"):
+            # insights.run creates the broker itself (nothing can be supplied beforehand); on a serialized
+            # archive dr.run documents a further rule for what the broker already holds (the dependencies
+            # of such components are not collected again), which the statement does not cover
+            case["seeded"], case["seed_vals"] = [], {}
+        # every front end is exercised with switched off components more often than not
+        if not case["disabled"] and draw(st.booleans()):
+            case["disabled"] = sorted(draw(st.sets(st.integers(0, n - 1), min_size=1, max_size=3)))
+    else:
+        case["driver"] = draw(dyn.driver(n))
     mode = draw(st.sampled_from(["set_enabled", "set_enabled", "apply_configs", "apply_configs_prefix",
                                  "default_disabled"]))
     case["enable_mode"] = mode
@@ -87,12 +171,176 @@ def apply_enable(case, b):
     raise AssertionError(mode)
 
 
+def _sweep_stale_tmp():
+    """Workers are killed when another worker has found a violation or the budget is over; a case they were
+    in the middle of cannot clean up after itself.  Directories of dead processes are removed at the next start."""
+    import os
+    import shutil
+    import tempfile
+    top = tempfile.gettempdir()
+    for fn in os.listdir(top):
+        if not fn.startswith(TMP_PREFIX):
+            continue
+        pid = fn[len(TMP_PREFIX):].split("-")[0]
+        if not pid.isdigit():
+            continue
+        try:
+            os.kill(int(pid), 0)
+        except ProcessLookupError:
+            shutil.rmtree(os.path.join(top, fn), ignore_errors=True)
+        except OSError:
+            pass
+
+
+def selftest():
+    _sweep_stale_tmp()
+
+
+def _validate_front(case, drv):
+    ok = (drv.get("api") in FRONT_APIS and drv.get("graph") in FRONT_GRAPHS and drv.get("root") in FRONT_ROOTS
+          and drv.get("context") in FRONT_CONTEXTS)
+    if ok and drv["api"] == "insights.run":
+        ok = drv["graph"] in ("targets", "single_target", "default") and not drv.get("parallel") and not case["seeded"]
+    if ok and drv["api"] == "insights.process_dir":
+        ok = drv["root"] not in ("none", "tar")
+    if ok and drv["api"] == "SingleEvaluator":
+        ok = drv["root"] == "none" and drv["context"] is None
+    if ok and drv["root"] == "serialized":
+        ok = not case["seeded"]
+    if ok and drv["root"] == "none" and drv["api"] != "SingleEvaluator":
+        ok = not drv.get("parallel")
+    if not ok:
+        raise HarnessError("bad case: front-end driver %r (seeded %r)" % (drv, case["seeded"]))
+
+
+def front_active(case, drv):
+    shape = drv["graph"]
+    if shape in ("targets", "single_target"):
+        return dyn.closure(case, drv["targets"])
+    if shape == "subset":
+        return set(drv["subset"])
+    return set(range(len(case["nodes"])))
+
+
+def _make_root(kind, tmp, k):
+    """A directory (or archive) the front end determines the execution context from."""
+    import os
+    import tarfile
+    top = os.path.join(tmp, "root%d" % k)
+
+    def put(*parts):
+        path = os.path.join(top, *parts)
+        if not os.path.isdir(os.path.dirname(path)):
+            os.makedirs(os.path.dirname(path))
+        with open(path, "w") as f:
+            f.write("vp.example.com\n")
+    if kind == "serialized":
+        put("insights_archive.txt")
+        return top
+    put("etc", "hostname")
+    put("etc", "redhat-release")
+    if kind == "commands":
+        put("insights_commands", "hostname")
+    if kind == "sos":
+        put("sos_commands", "general", "hostname")
+    if kind == "tar":
+        arc = os.path.join(tmp, "root%d.tar.gz" % k)
+        with tarfile.open(arc, "w:gz") as t:
+            t.add(top, arcname="vp-archive")
+        return arc
+    return top
+
+
+def front_execute(case, b, drv, tmp, graphs):
+    """One evaluation through a public front end -> (broker, escaped exception or None, evaluator response or None).
+    Seeds, the skip-recording switch and dr.set_enabled are applied as dyn.execute applies them."""
+    import io
+    import insights
+    from insights.core import dr, context as ctxmod
+    comps, nodes = b.comps, case["nodes"]
+    api, shape = drv["api"], drv["graph"]
+    for i in case["disabled"]:
+        dr.set_enabled(comps[i], False)
+
+    def build_graph():
+        if shape == "full":
+            return dict((c, set(comps[j] for j in dyn.dep_set(nodes[i]))) for i, c in enumerate(comps))
+        if shape in ("targets", "single_target"):
+            g = {}
+            for i in drv["targets"]:
+                g.update(dr.get_dependency_graph(comps[i]))
+            return g
+        if shape == "subset":
+            return dict((comps[i], set(comps[j] for j in dyn.dep_set(nodes[i]))) for i in drv["subset"])
+        return dr.COMPONENTS[dr.GROUPS.single]         # "default": the process-wide graph of the single group
+
+    def graph():
+        # a caller that keeps handing over its own graph object (repeat > 1)
+        if "front" not in graphs:
+            graphs["front"] = build_graph()
+        return graphs["front"]
+    graphs["n"] = graphs.get("n", 0) + 1
+    root = None if drv["root"] == "none" else _make_root(drv["root"], tmp, graphs["n"])
+    context = getattr(ctxmod, drv["context"]) if drv.get("context") else None
+    broker = None
+    response = None
+    escaped = None
+    try:
+        if api == "insights.run":
+            if shape == "default":
+                component = None
+            elif shape == "single_target":
+                component = comps[drv["targets"][0]]
+            else:
+                component = [comps[i] for i in drv["targets"]]
+            broker = insights.run(component, root=root, context=context, store_skips=case["store_skips"])
+        else:
+            broker = dr.Broker()
+            broker.store_skips = case["store_skips"]
+            for i in case["seeded"]:
+                broker[comps[i]] = dyn.seed_value(case, i)
+            par = bool(drv.get("parallel"))
+            if api == "insights._run":
+                insights._run(broker, graph(), root=root, context=context, parallel=par)
+            elif api == "insights.process_dir":
+                insights.process_dir(broker, root, graph(), context, parallel=par)
+            else:
+                from insights.core.evaluators import SingleEvaluator
+                ev = SingleEvaluator(broker, stream=io.StringIO(), incremental=bool(drv.get("incremental")))
+                response = ev.process(None if shape == "default" else graph(), parallel=par)
+    except Exception as e:  # noqa
+        escaped = e
+    return broker, escaped, response
+
+
 def check(case):
+    import logging
+    import os
+    import shutil
+    import tempfile
     from insights.core import dr
+    drv = case["driver"]
+    front = drv["kind"] == "front"
     saved_enabled = dr.ENABLED
     saved_items = dict(saved_enabled)
-    b = dyn.build(case)
+    group = dr.COMPONENTS[dr.GROUPS.single]
+    saved_group = None
+    prev_disable = logging.root.manager.disable
+    tmp = None
+    b = None
     try:
+        if front:
+            _validate_front(case, drv)
+            from insights.core import evaluators  # noqa  (registers components: before the group is emptied)
+            logging.disable(logging.CRITICAL)
+            if drv["root"] != "none":
+                tmp = tempfile.mkdtemp(prefix="%s%d-" % (TMP_PREFIX, os.getpid()))
+            if drv["graph"] == "default":
+                # "everything that is loaded": the single group holds the generated components only while the
+                # case runs (its previous content is put back afterwards, same objects)
+                saved_group = list(group.items())
+                group.clear()
+        b = dyn.build(case)
         if case.get("pre_eval"):
             # a long-lived process: the components were already evaluated once under the default
             # settings before the enabled/disabled configuration is applied
@@ -104,8 +352,7 @@ def check(case):
         if case.get("enable_mode", "set_enabled") != "set_enabled":
             run_case["disabled"] = []          # already applied through the configuration API
         model_case = dict(case, disabled=sorted(eff_disabled))
-        drv = case["driver"]
-        active = dyn.active_set(case, drv)
+        active = front_active(case, drv) if front else dyn.active_set(case, drv)
         ex = dyn.model(model_case, active)
         graphs = {}
         info = None
@@ -113,21 +360,95 @@ def check(case):
             # the same graph object evaluated again with a fresh broker must decide the same way
             b.log[:] = []
             b.raised.clear()
-            broker, escaped = dyn.execute(run_case, b, drv, graphs=graphs)
+            response = None
+            if front:
+                broker, escaped, response = front_execute(run_case, b, drv, tmp, graphs)
+            else:
+                broker, escaped = dyn.execute(run_case, b, drv, graphs=graphs)
             if escaped is not None:
                 raise Violation("evaluation raised %s: %s" % (type(escaped).__name__, escaped))
-            info = compare(case, model_case, b, broker, ex, active)
+            if broker is None:
+                raise Violation("%s returned no broker" % drv.get("api"))
+            try:
+                info = compare(case, model_case, b, broker, ex, active)
+                if response is not None:
+                    _compare_response(case, b, ex, response)
+            except Violation as v:
+                if not front:
+                    raise
+                raise Violation("%s: %s" % (_front_name(drv), v.msg), **v.details)
+            if front:
+                info["labels"] = sorted(set(info["labels"]) | set(_front_labels(case, model_case, drv, ex, active)))
         if case.get("rerun") is not None:
-            info = dict(info)
-            info["labels"] = sorted(set(info["labels"]) | set(_rerun(case, model_case, b, broker, ex, case["rerun"])))
+            from insights.core.context import SerializedArchiveContext
+            if broker.get(SerializedArchiveContext) is None:
+                # (under the serialized-archive context dr.run documents a further rule for what the broker
+                # already holds, which the statement does not cover)
+                info = dict(info)
+                info["labels"] = sorted(set(info["labels"]) | set(_rerun(case, model_case, b, broker, ex, case["rerun"])))
         return info
     finally:
-        dyn.cleanup(b)
-        dr.ENABLED = saved_enabled
-        for k in list(saved_enabled.keys()):
-            if k not in saved_items:
-                del saved_enabled[k]
-        saved_enabled.update(saved_items)
+        try:
+            if b is not None:
+                dyn.cleanup(b)
+            dr.ENABLED = saved_enabled
+            for k in list(saved_enabled.keys()):
+                if k not in saved_items:
+                    del saved_enabled[k]
+            saved_enabled.update(saved_items)
+        finally:
+            if saved_group is not None:
+                # (components that something registered meanwhile - there should be none - are kept)
+                extra = list(group.items())
+                group.clear()
+                group.update(saved_group)
+                group.update(extra)
+            logging.disable(prev_disable)
+            if tmp is not None:
+                shutil.rmtree(tmp, ignore_errors=True)
+
+
+def _front_name(drv):
+    return "%s(graph=%s, root=%s%s%s)" % (drv["api"], drv["graph"], drv["root"],
+                                         ", context=%s" % drv["context"] if drv.get("context") else "",
+                                         ", parallel" if drv.get("parallel") else "")
+
+
+def _compare_response(case, b, ex, response):
+    """The evaluator's response lists the rule skips: exactly the rules with unmet requirements, each once."""
+    from insights.core import dr
+    nodes = case["nodes"]
+    names = dict((dr.get_name(c), i) for i, c in enumerate(b.comps))
+    got = sorted((names.get(r.get("rule_fqdn"), repr(r.get("rule_fqdn"))) for r in response.get("skips", [])), key=repr)
+    want = sorted((i for i, nd in enumerate(nodes) if nd["t"] == "rule" and isinstance(ex.val.get(i), tuple) and
+                   ex.val[i] and ex.val[i][0] == "SKIPRESP"), key=repr)
+    if got != want:
+        raise Violation("the evaluator's response lists skip results for rules %r, the rules with unmet "
+                        "requirements are %r" % (got, want))
+
+
+def _front_labels(case, model_case, drv, ex, active):
+    labels = ["api=" + drv["api"], "graph=" + drv["graph"], "root=" + drv["root"],
+              "context=" + str(drv.get("context"))]
+    if drv.get("parallel"):
+        labels.append("pool")
+    off = set(model_case["disabled"]) - set(case["seeded"])
+    # a component that is tried and found wanting *because* something was switched off
+    for i, nd in enumerate(case["nodes"]):
+        rep = ex.missing.get(i)
+        v = ex.val.get(i)
+        if rep is None and nd["t"] == "rule" and isinstance(v, tuple) and v and v[0] == "SKIPRESP":
+            rep = (v[1], v[2])
+        if rep is None:
+            continue
+        named = set(rep[0]) | set(j for g in rep[1] for j in g)
+        if named & off:
+            labels.append("report-names-disabled-dependency")
+        if any(j in ex.missing for j in named):
+            labels.append("report-names-unsatisfied-dependency")
+    if off & active:
+        labels.append("disabled-in-graph")
+    return labels
 
 
 def _rerun(case, model_case, b, broker, ex1, reseed):
@@ -330,8 +651,13 @@ def strat(tier):
     return cases(tier)
 
 
+def strat_front(tier):
+    return cases(tier, front=True)
+
+
 SUBS = [
-    Sub("graphs", check, strategy=strat, quick=2500, thorough=15000, workers_quick=4),
+    Sub("graphs", check, strategy=strat, quick=2000, thorough=15000, workers_quick=4),
+    Sub("frontends", check, strategy=strat_front, quick=550, thorough=6000, workers_quick=4, budget_quick=40),
     Sub("shapes", check, enumerate=shapes, workers_quick=4, workers_thorough=16, budget_quick=100,
         budget_thorough=1500),
 ]
